@@ -120,6 +120,26 @@ def bounded_pipelines(tier, seed):
             got, exp = repr(e), 'no error'
         if got != exp:
             failures.append({'key': 'pipeline', 'input': 'slice%r' % (args,), 'observed': repr(got)[:150], 'expected': repr(exp)[:150], 'replay_code': None})
+    # chaining never alters the spec it is called on, for EVERY ordered pair of stage kinds (a prefix extended two different ways, then re-used)
+    for a in sorted(stages):
+        for b in sorted(stages):
+            if a in listy:
+                continue
+            cases += 1
+            base = stages[a][0](Iter())
+            before = list(glom(list(range(10)), base))
+            ext1 = stages[b][0](base)
+            ext2 = stages['limit'][0](stages['limit'][0](base)) if b == 'limit' else stages[b][0](base)
+            if b == 'limit':
+                ext2 = base.limit(2)          # a tighter limit after the first extension
+                ext1 = base.limit(7)
+            after = list(glom(list(range(10)), base))
+            exp1 = list((lambda s_: islice(s_, 7))(stages[a][1](iter(range(10))))) if b == 'limit' else list(stages[b][1](stages[a][1](iter(range(10)))))
+            got1 = list(glom(list(range(10)), ext1))
+            if before != after or got1 != exp1 or ext1 is base or ext2 is base:
+                failures.append({'key': 'pipeline', 'input': 'prefix %s extended with %s and re-used' % (a, b),
+                                 'observed': repr({'prefix before': before, 'prefix after': after, 'extended': got1, 'same object': ext1 is base or ext2 is base})[:200],
+                                 'expected': repr({'prefix': before, 'extended': exp1})[:200], 'replay_code': None})
     # the sentinel given to Iter(...) ends the stream whichever stages are chained after it
     for name in sorted(stages):
         if name in listy:
